@@ -29,6 +29,9 @@ pub struct Case {
     pub comp_batch: bool,
     /// true = PUBREC i, release i, PUBREC i+1 ... ; false = all PUBRECs first
     pub pipelined: bool,
+    /// the send window is exactly as large as the number of exchanges outstanding at once (nothing to spare)
+    #[serde(default)]
+    pub tight: bool,
 }
 
 fn fail(c: &Case, rule: &str, detail: String) -> Failure {
@@ -37,7 +40,7 @@ fn fail(c: &Case, rule: &str, detail: String) -> Failure {
 
 pub async fn run_case(c: Case) -> Result<CaseInfo, Failure> {
     let m = usize::from(c.m);
-    let limit = c.m as u16 + 2;
+    let limit = if c.tight { c.m as u16 + u16::from(c.qos1 != 0) } else { c.m as u16 + 2 };
     let mut w = World::start(c.role, limit, LimitHow::Config, 0).await.map_err(|f| fail(&c, "harness-handshake", f.detail))?;
     let e = |f: Failure| fail(&c, &f.rule.clone(), f.detail);
     let mut q1_slot: Option<usize> = None;
@@ -269,7 +272,8 @@ pub fn run(ctx: &Ctx, started: Instant) -> i32 {
                             if m == 4 && qos1 > 1 && flags & 3 != 0 {
                                 continue; // keep the thorough space in bounds
                             }
-                            work.push(Case { role, m, qos1, rec_batch: flags & 1 != 0, poll_between: flags & 2 != 0, rel_order: perm.clone(), drop_mask, comp_batch: flags & 4 != 0, pipelined });
+                            work.push(Case { role, m, qos1, rec_batch: flags & 1 != 0, poll_between: flags & 2 != 0, rel_order: perm.clone(), drop_mask, comp_batch: flags & 4 != 0, pipelined, tight: false });
+                            work.push(Case { role, m, qos1, rec_batch: flags & 1 != 0, poll_between: flags & 2 != 0, rel_order: perm.clone(), drop_mask, comp_batch: flags & 4 != 0, pipelined, tight: true });
                         }
                     }
                 }
@@ -285,7 +289,7 @@ pub fn run(ctx: &Ctx, started: Instant) -> i32 {
     let report = Report {
         level: "exploration",
         rule: format!(
-            "exhaustive: m = 2..={max_m} concurrent send_exactly_once x every release order x every release/drop mask x PUBRECs one per write or batched x polls between PUBRECs x PUBCOMPs singly or batched x pipelined or phased schedule x \
+            "exhaustive: m = 2..={max_m} concurrent send_exactly_once x every release order x every release/drop mask x PUBRECs one per write or batched x polls between PUBRECs x PUBCOMPs singly or batched x pipelined or phased schedule x send window with two slots to spare or exactly full x \
              QoS 1 send before / after the QoS 2 sends / after the PUBRECs, for v3/v5 servers and clients ({} schedules). The peer answers in order of receipt. Oracle: every send resolves with the receipt of its own id; no release fails with UnexpectedRelease; \
              each release or drop writes exactly one PUBREL with its own id; a release completes exactly when its own PUBCOMP was delivered; at the end everything completed, connection alive, credit() == limit. \
              Non-trivial = >= 2 exchanges simultaneously between PUBREC and PUBCOMP (or pipelined); distinct = the schedule",
